@@ -265,7 +265,7 @@ class TickRateAttribute:
 
     # default value: the effective frame rate if ttp:frameRate is specified, and 1 otherwise
 
-    if FrameRateAttribute.frame_rate_qn in ttml_element.attrib:
+    if FrameRateAttribute.is_specified(ttml_element):
 
       return FrameRateAttribute.extract(ttml_element)
 
@@ -353,6 +353,14 @@ class FrameRateAttribute:
   _FRAME_RATE_RE = re.compile(r"(\d+)")
 
   _FRAME_RATE_MULT_RE = re.compile(r"(\d+) (\d+)")
+
+  @staticmethod
+  def is_specified(ttml_element) -> bool:
+    '''Returns whether a well-formed ttp:frameRate is present
+    '''
+    fr_raw = ttml_element.attrib.get(FrameRateAttribute.frame_rate_qn)
+
+    return fr_raw is not None and FrameRateAttribute._FRAME_RATE_RE.fullmatch(fr_raw) is not None and int(fr_raw) > 0
 
   @staticmethod
   def extract(ttml_element) -> Fraction:
